@@ -607,6 +607,10 @@ package quickfix
 //@   requires mp != nil && mp.msg != nil && mp.fieldIndex == 0 && mapsok(mp.msg)
 //@   requires ddhdr(mp.transportDataDictionary) && ddwf(mp.appDataDictionary)
 //@   ensures @raw mp.msg.rawMessage == old(mp.msg.rawMessage)
+//@   ensures @maps mp.msg == old(mp.msg) && mapsok(mp.msg)
+//@   ensures @hdr fmvals(mp.msg.Header.FieldMap)
+//@   ensures @body fmvals(mp.msg.Body.FieldMap)
+//@   ensures @trl fmvals(mp.msg.Trailer.FieldMap)
 //@   loop 1 invariant @idx 3 <= mp.fieldIndex && mp.fieldIndex <= len(mp.msg.fields) + 1
 //@   loop 1 invariant @winH inwindow(mp.msg.Header.FieldMap, mp.msg.fields, mp.fieldIndex)
 //@   loop 1 invariant @winB inwindow(mp.msg.Body.FieldMap, mp.msg.fields, mp.fieldIndex)
@@ -827,3 +831,16 @@ package quickfix
 //@ func (p *parser) ReadMessage [C09]
 //@   requires pwf(p)
 //@   ensures @wf pwf(p)
+
+// the parse entry points: whatever the bytes, the message object stays usable (maps present, every looked-up tag has
+// a value) - what the session handlers require of an inbound message
+//@ func ParseMessageWithDataDictionary [C09,C11]
+//@   requires msg != nil && mapsok(msg) && rawMessage != nil
+//@   requires @thdr ddhdr(transportDataDictionary)
+//@   requires @dfields ddfields()
+//@   requires @dmsgs ddmsgs()
+//@   requires @ddict dddict(appDataDictionary)
+//@   ensures @maps mapsok(msg)
+//@   ensures @hdr fmvals(msg.Header.FieldMap)
+//@   ensures @body fmvals(msg.Body.FieldMap)
+//@   ensures @trl fmvals(msg.Trailer.FieldMap)
